@@ -44,14 +44,14 @@ def model_runs(quick):
         return [("cond", cfg_text(["pc_conditional"], maxrows=3, keys=(1, 2), v2s="V2")),
                 ("cond3", cfg_text(["pc_conditional"], maxrows=3, keys=(11, 12, 21), v2s="V1", weights=(1, 3))),
                 ("cross", cfg_text(["pc_grouped_cross", "renyi2"], maxrows=3, keys=(1, 2, 3), v2s="V1")),
-                ("delta", cfg_text(["pcDelta_grouped", "pcDelta_grouped_cross"], maxrows=4, keys=(1, 2), edges="E1")),
+                ("delta", cfg_text(["pcDelta_grouped", "pcDelta_grouped_cross"], maxrows=4, keys=(1, 2), edges="E3")),
                 # many groups: every cell of the cross tables must belong to ITS pair of groups
-                ("many", cfg_text(["pc_grouped_cross", "pcDelta_grouped_cross"], maxrows=4, keys=(1, 2, 3, 4), edges="E1", mingroups=4))]
+                ("many", cfg_text(["pc_grouped_cross", "pcDelta_grouped_cross"], maxrows=4, keys=(1, 2, 3, 4), edges="E3", mingroups=4))]
     return [("cond", cfg_text(["pc_conditional"], maxrows=5, keys=(1, 2), v2s="V1", weights=(1, 2, 3))),
             ("cond3", cfg_text(["pc_conditional"], maxrows=4, keys=(11, 12, 21), v2s="V2", weights=(1, 3))),
             ("cross", cfg_text(["pc_grouped_cross", "renyi2"], maxrows=4, keys=(1, 2, 3), v2s="V2")),
             ("delta", cfg_text(["pcDelta_grouped", "pcDelta_grouped_cross"], maxrows=4, keys=(1, 2, 3), edges="E2")),
-            ("delta5", cfg_text(["pcDelta_grouped", "pcDelta_grouped_cross"], maxrows=5, keys=(1, 2), edges="E1")),
+            ("delta5", cfg_text(["pcDelta_grouped", "pcDelta_grouped_cross"], maxrows=5, keys=(1, 2), edges="E3")),
             ("many", cfg_text(["pc_grouped_cross", "pcDelta_grouped_cross", "pcDelta_grouped", "pc_conditional"], maxrows=5, keys=(1, 2, 3, 4), edges="E1", mingroups=4)),
             ("many5", cfg_text(["pc_grouped_cross", "pcDelta_grouped_cross"], maxrows=5, keys=(1, 2, 3, 4, 5), edges="E1", mingroups=5))]
 
